@@ -2,6 +2,7 @@ package main
 
 import (
 	"fmt"
+	"go/constant"
 	"regexp"
 	"sort"
 	"strings"
@@ -209,6 +210,14 @@ func cmpRel(name, xRe, yRe string, rel Rel) VM {
 				}
 			default:
 				return
+			}
+			if r == RelNE {
+				// unsigned x ≠ 0 is x > 0: the ordered comparisons are decidable too
+				if isUnsigned(b.X.Type()) && isZeroConst(b.Y) {
+					r = RelGT
+				} else if isUnsigned(b.Y.Type()) && isZeroConst(b.X) {
+					r = RelLT
+				}
 			}
 			var res bool
 			switch b.Op.String() {
@@ -920,4 +929,13 @@ func callSinksVia(fn *ssa.Function, label string, callees ...string) []Sink {
 		}
 	}
 	return out
+}
+
+func isZeroConst(v ssa.Value) bool {
+	c, ok := v.(*ssa.Const)
+	if !ok || c.Value == nil || c.Value.Kind() != constant.Int {
+		return false
+	}
+	n, exact := constant.Int64Val(c.Value)
+	return exact && n == 0
 }
